@@ -56,11 +56,19 @@ func (fr *Frame) nativeCallVals(st *State, fn *ssa.Function, args []Val, sig *ty
 		if strings.HasSuffix(name, ".WithStack") || strings.HasSuffix(name, ".Trace") || strings.HasSuffix(name, ".AddStack") {
 			// cause is preserved (used by errors.Cause / Is comparisons)
 			r.assumeGlobal(eq(app("errcause", e.S), app("errcause", in.S)))
+			r.assumeGlobal("(forall ((t Iface)) (! (= (errIs " + e.S + " t) (errIs " + in.S + " t)) :pattern ((errIs " + e.S + " t))))")
 		}
 		if strings.HasSuffix(name, ".Cause") {
 			r.assumeGlobal(eq(e.S, app("errcause", in.S)))
 		}
 		return e, true
+	}
+	if name == "errors.Is" || name == "github.com/pkg/errors.Is" || name == "github.com/pingcap/errors.Is" {
+		// errors.Is(err, target): an uninterpreted relation with the facts every implementation gives: a nil error is
+		// nothing but nil, and an error is itself
+		used()
+		a, b := fr.tvOf(st, args[0], errT), fr.tvOf(st, args[1], errT)
+		return TV{app("errIs", a.S, b.S), SBool, types.Typ[types.Bool]}, true
 	}
 	if strings.HasPrefix(name, "(*sync/atomic.Pointer[") {
 		// atomic.Pointer[T]: the pointer is held in field v
